@@ -107,6 +107,11 @@ def make_object(g, r, spec):
         for i in range((mszmax + bs - 1) // bs):
             w = min(bs, mszmax - bs * i)
             blk = g.spd(w, cond=10 ** r.uniform(0.3, 2.5), scale=noise * 10 ** r.uniform(-0.5, 0.5))   # distinct, non-isotropic blocks
+            if spec.get("samediag") and w >= 2:
+                # blocks with the very same variances but different correlations (equal diagonals, different off-diagonal)
+                sd = [math.sqrt(noise) * (1 + 0.25 * a) for a in range(w)]
+                blk = [[sd[a] * sd[c] * (1.0 if a == c else (0.6 * math.cos(1.7 * i + a + c) / (1 + abs(a - c)))) for c in range(w)] for a in range(w)]
+                blk = [[blk[min(a, c)][max(a, c)] for c in range(w)] for a in range(w)]
             for a in range(w):
                 for c in range(w):
                     R[bs * i + a][bs * i + c] = blk[a][c]
@@ -145,12 +150,15 @@ def make_object(g, r, spec):
         yt = [hexd(v) for v in y]
         rscale = cs["rscale"]
         Rc = [[v * rscale for v in row] for row in R] if red else [[R[a][b] * rscale for b in range(msz)] for a in range(msz)]
-        early = any(fail) or msz % bs != 0
-        # the serial likelihood is not queried where it would pair stale members of a different measurement size
-        qlik = 0 if (early and last_ok_msz is not None and last_ok_msz != msz) else 1
-        if not early:
-            last_ok_msz = msz
-        htoks += [str(k), str(msz), str(kind)] + [str(f) for f in fail] + [hexd(rscale), str(cs.get("toggle", 0)), str(qlik)] + yt + bel
+        qlik = 1      # since fix 9d4c3da the serial correction forgets its innovations when a step starts: always safe to ask
+        zmode, zcomp = cs.get("zmode", 0), cs.get("zcomp", 0) % k
+        if cs.get("ynear") and kind == 0 and msz % bs == 0:
+            # affine h: y within rounding of the predicted measurement H m + h0 of one component (innovation ~1e-16 .. 1e-13 relative)
+            mm = means[zcomp]
+            y = [sum(H[a][j] * mm[j] for j in range(n)) + h0[a] for a in range(msz)]
+            y = [v * (1 + r.choice([0.0, 1e-15, 1e-13])) for v in y]
+            yt = [hexd(v) for v in y]
+        htoks += [str(k), str(msz), str(kind)] + [str(f) for f in fail] + [hexd(rscale), str(cs.get("toggle", 0)), str(qlik), str(zmode), str(zcomp)] + yt + bel
         singles.append(" ".join(["sukf", str(n), str(nc), str(msz), str(bs), str(red), str(k)] + ut + [str(kind)] + [str(f) for f in fail]
                                 + vlib.fmt_mat_cm(H[:msz]) + [hexd(v) for v in h0[:msz]] + yt + vlib.fmt_mat_cm(Rc) + bel))
     return " ".join(htoks), singles
@@ -162,7 +170,7 @@ def gen_case(g, tier, idx):
     r = g.r
     mmax = 12 if tier == "quick" else 18
     style = r.choice(["full", "full", "reduced", "reduced", "nondividing", "nondividing", "exactsqrt", "smallnoise", "affine", "fault", "wc0zero",
-                      "scalar", "circular", "circular", "varsize", "varsize", "scaled", "scaled", "dupcomp", "manyblocks", "moved"])
+                      "scalar", "circular", "circular", "varsize", "varsize", "scaled", "scaled", "dupcomp", "manyblocks", "moved", "nullinnov", "nullinnov", "samediag"])
     n = idx % 4 + 1 if idx < 8 else r.randint(1, 4)
     nc = r.randint(1, n) if style == "circular" else 0      # the last nc state rows are Euler angles
     bs = [1, 2, 3, 5, 6, 3, 2, 1][idx % 8] if idx < 16 else r.choice([1, 2, 2, 3, 3, 5, 6])
@@ -209,15 +217,31 @@ def gen_case(g, tier, idx):
         if style == "varsize" and ci > 0:
             # the measurement size changes between calls (non-monotone), sometimes to a non-multiple of the block size
             m_c = r.choice([bs * v for v in range(1, msz // bs + 1)] + ([r.randint(1, msz)] if bs > 1 else []))
-        calls.append({"k": r.choice([1, 2, 2, 3]), "msz": m_c, "fail": fail,
+        zmode = 0
+        if style == "nullinnov":
+            # the measurement coincides with the predicted measurement of one component: exactly (harness), in its first
+            # sub-measurement only, or up to rounding (affine h)
+            zmode = r.choice([1, 1, 2, 0])
+        calls.append({"k": r.choice([1, 2, 2, 3]), "msz": m_c, "fail": fail, "zmode": zmode, "zcomp": r.randrange(3),
+                      "ynear": style == "nullinnov" and zmode == 0,
                       "kind": kind if (ci == 0 or style in ("affine", "scaled") or r.random() < 0.5) else r.choice([0, 1, 2, 3]),
                       "rscale": 1.0 if ci == 0 else r.choice([1.0, 0.5, 2.0, 4.0, 0.25]),
                       "toggle": 1 if r.random() < 0.2 else 0, "dup": style == "dupcomp"})
     if style == "dupcomp":
         for cs in calls:
             cs["k"] = r.choice([2, 3])
+    if style == "nullinnov" and r.random() < 0.5:
+        kind = 0
+        for cs in calls:
+            cs["kind"] = 0
+    if style == "samediag":
+        bs = r.choice([2, 3])
+        nb = r.randint(2, max(2, min(4, mmax // bs)))
+        msz, red = nb * bs, 0
+        for cs in calls:
+            cs["msz"] = msz
     spec = {"n": n, "nc": nc, "bs": bs, "red": red, "mszmax": msz, "ut": ut, "noise": noise, "xscale": xscale, "yscale": yscale,
-            "mv": r.choice([1, 2]) if style == "moved" else 0, "blockdiag": blockdiag, "calls": calls}
+            "mv": r.choice([1, 2]) if style == "moved" else 0, "blockdiag": blockdiag, "samediag": style == "samediag", "calls": calls}
     hline, singles = make_object(g, r, spec)
     meta = {"style": style, "n": n, "nc": nc, "msz": msz, "bs": bs, "red": red, "ks": [c["k"] for c in calls], "kind": kind,
             "fails": [list(c["fail"]) for c in calls], "ut": list(ut), "calls": ncalls, "mv": spec["mv"]}
@@ -299,6 +323,10 @@ def parse_hout(h, c):
     o["Y"] = t[p:p + msz * yc]; o["ycols"] = yc; p += msz * yc
     o["same"] = t[p] == "in-same"; p += 1
     o["likrep"] = (t[p] == "likrep-same") if p < len(t) else True
+    p += 1
+    if p < len(t) and t[p] == "YE":
+        cnt = int(t[p + 1]); p += 2
+        o["yeff"] = t[p:p + cnt]
     return o
 
 
@@ -322,13 +350,19 @@ def unwrapped_X(c, o):
     return X
 
 
+def eff_y(c, o):
+    """the measurement the serial correction's innovation was formed with (differs from the line's y in the null-innovation modes)"""
+    ye = o.get("yeff")
+    return ye if (ye is not None and len(ye) == c["msz"]) else c["y"]
+
+
 def driver_line(c, o):
     n, msz, bs, red, k, s = c["n"], c["msz"], c["bs"], c["red"], c["k"], o["s"]
     zero = hexd(0.0)
     X = o["X"] if o["xcols"] == s * k else [zero] * (n * s * k)       # as the implementation's sigma_point() returned them
     Y = o["Y"] if o["ycols"] == s * k else [zero] * (msz * s * k)
     toks = ["sukf", str(n), str(c["nc"]), str(msz), str(bs), str(red), str(k), str(s)] + [str(1 - f) for f in c["fail"]]
-    toks += c["y"] + o["wm"] + o["wc"] + c["means"] + c["covs"] + c["outw"] + X + Y + c["Rt"]
+    toks += eff_y(c, o) + o["wm"] + o["wc"] + c["means"] + c["covs"] + c["outw"] + X + Y + c["Rt"]
     return " ".join(toks)
 
 
@@ -371,7 +405,7 @@ def tolerances(c, o, i):
     Yp = [[unhex(o["Y"][(i * s + j) * msz + a]) for j in range(s)] for a in range(msz)]
     m = [unhex(c["means"][i * n + a]) for a in range(n)]
     P = [[unhex(c["covs"][i * n * n + b * n + a]) for b in range(n)] for a in range(n)]
-    y = [unhex(v) for v in c["y"]]
+    y = [unhex(v) for v in eff_y(c, o)]
     if red:
         blk = [[unhex(c["Rt"][b * bs + a]) for b in range(bs)] for a in range(bs)]
         blocks = [blk] * nb
@@ -458,9 +492,9 @@ def check_case(line, meta, hout, dline, dout, stats, notes):
             notes["size_mismatch:weights_not_copied"] = notes.get("size_mismatch:weights_not_copied", 0) + 1
         if o["s_lik_valid"]:
             notes["size_mismatch:likelihood_reported"] = notes.get("size_mismatch:likelihood_reported", 0) + 1
-    if (faulty or not divides) and o["s_lik_valid"]:
-        # stale members: a likelihood is reported although this call corrected nothing (recorded; see design note)
-        notes["early_return:likelihood_reported_anyway"] = notes.get("early_return:likelihood_reported_anyway", 0) + 1
+    if faulty or not divides:
+        keyn = "early_return:likelihood_reported_anyway" if o["s_lik_valid"] else "early_return:no_likelihood_reported"
+        notes[keyn] = notes.get(keyn, 0) + 1
     if faulty:
         # outside C05 (C12): recorded only
         keyn = "fault:belief_identical" if (o["s_mean"] == c["means"] and o["s_cov"] == c["covs"]) else "fault:belief_changed"
@@ -474,6 +508,11 @@ def check_case(line, meta, hout, dline, dout, stats, notes):
         # model: output = predicted belief, exactly
         if mo["mean"] != [Fraction(unhex(v)) for v in c["means"]] or mo["cov"] != [Fraction(unhex(v)) for v in c["covs"]]:
             probs.append(("corr", "model-identity", "model does not return the predicted belief on an early return"))
+        # likelihood query after a step that used no measurement: the model (code after fix 9d4c3da) reports none,
+        # as the standard correction does; a likelihood reported here is computed from members of an earlier step
+        if o["s_lik_valid"] != (mo["lik"] is not None):
+            probs.append(("corr", "likelihood-after-early-return", "after a step that corrected nothing getLikelihood() reports %s, the model %s"
+                          % ("a likelihood" if o["s_lik_valid"] else "none", "a likelihood" if mo["lik"] is not None else "none")))
         if divides and faulty and (o["s_mean"] != c["means"] or o["s_cov"] != c["covs"]):
             notes["fault:model_vs_impl_differ"] = notes.get("fault:model_vs_impl_differ", 0) + 1
         return probs
